@@ -54,41 +54,52 @@ theorem chunk_spec (q : Nat) : ∀ (n : Nat) (data : Bytes), data.length = n * q
       | inr e => exact h2 x e
     · simp [chunk, h3]
 
-/-- The data shards of a padded message: `k` shards of `len/k` bytes whose concatenation is the
-padded message (no zero fill is needed because `2k ∣ len`). -/
-theorem splitData_spec (data : Bytes) (k p : Nat) (hk : 0 < k) (hdvd : k ∣ data.length) (hne : data ≠ []) :
-    (splitData data k p).length = k ∧ (∀ x ∈ splitData data k p, x.length = data.length / k) ∧
-    (splitData data k p).flatten = data ∧ 0 < data.length / k := by
-  obtain ⟨q, hq⟩ := hdvd
+theorem ceil_mul_ge (len k : Nat) (hk : 0 < k) : len ≤ k * ((len + k - 1) / k) := by
+  have h := Nat.div_add_mod (len + k - 1) k
+  have hr := Nat.mod_lt (len + k - 1) hk
+  generalize k * ((len + k - 1) / k) = m at h ⊢
+  omega
+
+theorem perShard_spec (len k p : Nat) (hk : 0 < k) (hlen : 0 < len) :
+    len ≤ k * perShard len k p ∧ 0 < perShard len k p := by
+  have hc := ceil_mul_ge len k hk
+  have hcpos : 0 < (len + k - 1) / k := by
+    cases hq : (len + k - 1) / k with
+    | zero => rw [hq, Nat.mul_zero] at hc; omega
+    | succ _ => omega
+  unfold perShard
+  simp only
+  split
+  · have h64 : (len + k - 1) / k ≤ ((len + k - 1) / k + 63) / 64 * 64 := by
+      have h := Nat.div_add_mod ((len + k - 1) / k + 63) 64
+      have hr := Nat.mod_lt ((len + k - 1) / k + 63) (by decide : 0 < 64)
+      omega
+    exact ⟨Nat.le_trans hc (Nat.mul_le_mul_left k h64), by omega⟩
+  · exact ⟨hc, hcpos⟩
+
+/-- The data shards klauspost `Split` makes of non-empty data: `k` shards of one non-zero size whose
+concatenation is the data followed by zeros (no zeros for a padded message and at most 256
+shards; the Leopard codec rounds the shard size up to a multiple of 64). -/
+theorem splitData_spec (data : Bytes) (k p : Nat) (hk : 0 < k) (hne : data ≠ []) :
+    ∃ s z, 0 < s ∧ (splitData data k p).length = k ∧ (∀ x ∈ splitData data k p, x.length = s) ∧
+      (splitData data k p).flatten = data ++ List.replicate z 0 := by
   have hlenpos : 0 < data.length := by
     cases data with
     | nil => exact absurd rfl hne
     | cons _ _ => simp
-  have hqpos : 0 < q := by
-    cases q with
-    | zero => rw [Nat.mul_zero] at hq; omega
-    | succ _ => omega
-  have hdiv : data.length / k = q := by rw [hq]; exact Nat.mul_div_cancel_left q hk
   unfold splitData
   by_cases h1 : k + p = 1
   · have hk1 : k = 1 := by omega
     subst hk1
     simp only [h1, if_true]
-    refine ⟨rfl, ?_, by simp, by rw [hdiv]; exact hqpos⟩
-    intro x hx; simp at hx; subst hx; simp
+    refine ⟨data.length, 0, hlenpos, rfl, ?_, by simp⟩
+    intro x hx; simp at hx; subst hx; rfl
   · simp only [h1, if_false]
-    have hper : (data.length + k - 1) / k = q := by
-      rw [hq]
-      have : k * q + k - 1 = k * q + (k - 1) := by omega
-      rw [this, Nat.mul_add_div hk]
-      have : (k - 1) / k = 0 := Nat.div_eq_of_lt (by omega)
-      omega
-    rw [hper]
-    have hz : k * q - data.length = 0 := by omega
-    rw [hz, List.replicate_zero, List.append_nil]
-    obtain ⟨a, b, c⟩ := chunk_spec q k data (by rw [hq])
-    exact ⟨a, by rw [hdiv]; exact b, c, by rw [hdiv]; exact hqpos⟩
-
+    obtain ⟨hge, hpos⟩ := perShard_spec data.length k p hk hlenpos
+    obtain ⟨a, b, c⟩ := chunk_spec (perShard data.length k p) k
+      (data ++ List.replicate (k * perShard data.length k p - data.length) 0)
+      (by simp only [List.length_append, List.length_replicate]; omega)
+    exact ⟨_, _, hpos, a, b, c⟩
 
 /-! ### CreatePropellerUnits -/
 
@@ -122,14 +133,11 @@ theorem encOf_spec (rs : RS) (msg : Bytes) (k p : Nat) (hl : RSLaws rs k p) (hin
     ∃ s, 0 < s ∧ (encOf rs msg k p).length = k + p ∧ (∀ x ∈ encOf rs msg k p, x.length = s) ∧
       (splitData (pad msg k) k p).length = k ∧
       (∀ x ∈ splitData (pad msg k) k p, x.length = s) ∧
-      (encOf rs msg k p).flatten = pad msg k ++ (rs.parity k p (splitData (pad msg k) k p)).flatten := by
-  have hdvd : k ∣ (pad msg k).length := by
-    obtain ⟨q, hq⟩ := pad_length_dvd msg k hin
-    exact ⟨2 * q, by rw [hq]; simp [Nat.mul_assoc, Nat.mul_comm, Nat.mul_left_comm]⟩
+      ∃ extra, (encOf rs msg k p).flatten = pad msg k ++ extra := by
   have hne : pad msg k ≠ [] := by
     intro h; have := pad_ne_nil msg k; rw [h] at this; simp at this
-  obtain ⟨h1, h2, h3, h4⟩ := splitData_spec (pad msg k) k p hin.1 hdvd hne
-  refine ⟨(pad msg k).length / k, h4, ?_, ?_, h1, h2, ?_⟩
+  obtain ⟨s, z, hs, h1, h2, h3⟩ := splitData_spec (pad msg k) k p hin.1 hne
+  refine ⟨s, hs, ?_, ?_, h1, h2, List.replicate z 0 ++ (rs.parity k p (splitData (pad msg k) k p)).flatten, ?_⟩
   · simp [encOf, h1, hl.parity_length _ h1]
   · intro x hx
     simp only [encOf, List.mem_append] at hx
@@ -242,11 +250,11 @@ theorem construct_created_aux [DecidableEq H] (cfg : Cfg) (f : HashFns H) (rs : 
         (encOf rs msg k p))) localIdx k p =
       match rootUnit cfg (maskUnits S (mkUnits C P (treeOf cfg f rs msg k p).1
           (treeOf cfg f rs msg k p).2 sig n 0 (encOf rs msg k p))) with
-      | none => .panic
+      | none => if cfg.rootFromPresent then .err .root else .panic
       | some u0 =>
         if u0.root ≠ (treeOf cfg f rs msg k p).1 then .err .root
         else .ok (msg, (encOf rs msg k p).getD localIdx [], (treeOf cfg f rs msg k p).2.getD localIdx []) := by
-  obtain ⟨s, hs, hlen, hsize, hdlen, hdsize, hflat⟩ := encOf_spec rs msg k p hl hin
+  obtain ⟨s, hs, hlen, hsize, hdlen, hdsize, extra, hflat⟩ := encOf_spec rs msg k p hl hin
   have hk := hin.1
   generalize hunits : mkUnits C P (treeOf cfg f rs msg k p).1 (treeOf cfg f rs msg k p).2 sig n 0
     (encOf rs msg k p) = units
@@ -342,6 +350,7 @@ theorem construct_created_panics_pinned [DecidableEq H] (cfg : Cfg) (f : HashFns
       | nil => simp [maskUnits]
       | cons u us => simp [maskUnits]
   rw [this]
+  simp [hcfg]
 
 /-- The Merkle root binds the whole leaf list (of a known length) under the ideal hash. -/
 theorem merkleNew_root_inj [DecidableEq H] (f : HashFns H) (hI : Ideal f) (l1 l2 : List Bytes)
@@ -430,7 +439,9 @@ theorem construct_ok_inv [DecidableEq H] (cfg : Cfg) (f : HashFns H) (rs : RS)
         · rw [if_pos hany] at hc; cases hc
         · rw [if_neg hany] at hc
           cases hru : rootUnit cfg U with
-          | none => simp [hru] at hc
+          | none =>
+            simp only [hru] at hc
+            split at hc <;> cases hc
           | some u0 =>
             simp only [hru] at hc
             by_cases hne : u0.root ≠ (merkleNew f (full.map (leafOf cfg.shardingLeafProto))).1
@@ -459,7 +470,7 @@ theorem construct_sound [DecidableEq H] (cfg : Cfg) (f : HashFns H) (hI : Ideal 
     (hroot : ∀ u0, rootUnit cfg U = some u0 → u0.root = (treeOf cfg f rs msg k p).1) :
     m = msg ∧ sh = (encOf rs msg k p).getD localIdx [] ∧
       pr = (treeOf cfg f rs msg k p).2.getD localIdx [] := by
-  obtain ⟨s, hs, hlen, hsize, hdlen, hdsize, hflat⟩ := encOf_spec rs msg k p hl hin
+  obtain ⟨s, hs, hlen, hsize, hdlen, hdsize, extra, hflat⟩ := encOf_spec rs msg k p hl hin
   obtain ⟨shards, full, u0, _, hrec, hu0, hr0, hup, hloc, hsh, hpr⟩ :=
     construct_ok_inv cfg f rs U localIdx k p m sh pr hc
   have hr := hroot u0 hu0
@@ -547,16 +558,11 @@ theorem construct_panic_only_if [DecidableEq H] (cfg : Cfg) (f : HashFns H) (rs 
         cases hru : rootUnit cfg U with
         | none =>
           left
-          unfold rootUnit at hru
+          simp only [hru] at h
           by_cases hc : cfg.rootFromPresent = true
-          · exfalso
-            simp only [hc, if_true] at hru
-            have : (U.filterMap id).length = 0 := by
-              cases hx : U.filterMap id with
-              | nil => rfl
-              | cons a b => rw [hx] at hru; simp at hru
-            omega
-          · simp only [hc, Bool.false_eq_true, if_false] at hru
+          · simp [hc] at h
+          · unfold rootUnit at hru
+            simp only [hc, Bool.false_eq_true, if_false] at hru
             exact ⟨by simpa using hc, hru⟩
         | some u0 =>
           simp only [hru] at h
